@@ -294,13 +294,11 @@ structure CalOps where
 def firstFields : Fields := ⟨1, 1, 1, 0, 0, 0⟩
 def lastFields : Fields := ⟨9999, 12, 31, 23, 59, 59⟩
 
-/-- What the theorems assume about the calendar: it is a bijection between the valid field tuples
-and the seconds between the first and the last of them, and valid fields are in the usual ranges. -/
+/-- What the theorems assume about the calendar: reading the seconds of a valid field tuple back
+gives the tuple (so valid tuples ↔ instants is one-to-one), and valid fields are in the usual ranges.
+Proved for `gregorian` in `Lemmas/TimeUnitsCal.lean`. -/
 structure CalLaws (c : CalOps) : Prop where
   ofSec_toSec : ∀ f, c.valid f = true → c.ofSec (c.toSec f) = f
-  toSec_ofSec : ∀ t, c.toSec firstFields ≤ t → t ≤ c.toSec lastFields →
-    c.valid (c.ofSec t) = true ∧ c.toSec (c.ofSec t) = t
-  range : ∀ f, c.valid f = true → c.toSec firstFields ≤ c.toSec f ∧ c.toSec f ≤ c.toSec lastFields
   bounds : ∀ f, c.valid f = true →
     1 ≤ f.year ∧ f.year ≤ 9999 ∧ 1 ≤ f.month ∧ f.month ≤ 12 ∧ 1 ≤ f.day ∧ f.day ≤ 31 ∧
     f.hour < 24 ∧ f.minute < 60 ∧ f.second < 60
@@ -428,37 +426,60 @@ def gValid (f : Fields) : Bool :=
   decide (1 ≤ f.day) && decide (f.day ≤ daysInMonth f.year f.month) &&
   decide (f.hour < 24) && decide (f.minute < 60) && decide (f.second < 60)
 
-/-- days from 1970-01-01 to y-m-d (proleptic Gregorian; the `days_from_civil` algorithm) -/
-def daysFromCivil (y : Int) (m d : Nat) : Int :=
-  let y' : Int := if m ≤ 2 then y - 1 else y
-  let era : Int := y' / 400
-  let yoe : Int := y' - era * 400
-  let mp : Int := if m ≤ 2 then (m : Int) + 9 else (m : Int) - 3
-  let doy : Int := (153 * mp + 2) / 5 + (d : Int) - 1
-  let doe : Int := yoe * 365 + yoe / 4 - yoe / 100 + doy
-  era * 146097 + doe - 719468
+/-- days from 0001-01-01 to the first day of year `y` (Python's `_days_before_year`) -/
+def daysBeforeYear (y : Int) : Int := 365 * (y - 1) + (y - 1) / 4 - (y - 1) / 100 + (y - 1) / 400
 
-/-- inverse of `daysFromCivil` (`civil_from_days`) -/
-def civilFromDays (z0 : Int) : Int × Nat × Nat :=
-  let z : Int := z0 + 719468
-  let era : Int := z / 146097
-  let doe : Int := z - era * 146097
-  let yoe : Int := (doe - doe / 1460 + doe / 36524 - doe / 146096) / 365
-  let doy : Int := doe - (365 * yoe + yoe / 4 - yoe / 100)
-  let mp : Int := (5 * doy + 2) / 153
-  let d : Int := doy - (153 * mp + 2) / 5 + 1
-  let m : Int := if mp < 10 then mp + 3 else mp - 9
-  let y : Int := yoe + era * 400
-  (if m ≤ 2 then y + 1 else y, m.toNat, d.toNat)
+/-- days of the year before month `m` (1-based; Python's `_days_before_month`) -/
+def cum (leap : Bool) (m : Nat) : Nat :=
+  let l := if leap then 1 else 0
+  match m with
+  | 1 => 0 | 2 => 31 | 3 => 59 + l | 4 => 90 + l | 5 => 120 + l | 6 => 151 + l | 7 => 181 + l
+  | 8 => 212 + l | 9 => 243 + l | 10 => 273 + l | 11 => 304 + l | 12 => 334 + l | _ => 365 + l
+
+/-- days from 0001-01-01 (day 0) to y-m-d, proleptic Gregorian (Python's `_ymd2ord` minus one) -/
+def toDays (y : Int) (m d : Nat) : Int :=
+  daysBeforeYear y + (cum (isLeap y) m : Int) + (d : Int) - 1
+
+/-- month and day of a 0-based day of the year -/
+def monthDay (leap : Bool) (doy : Nat) : Nat × Nat :=
+  if doy < cum leap 2 then (1, doy + 1)
+  else if doy < cum leap 3 then (2, doy - cum leap 2 + 1)
+  else if doy < cum leap 4 then (3, doy - cum leap 3 + 1)
+  else if doy < cum leap 5 then (4, doy - cum leap 4 + 1)
+  else if doy < cum leap 6 then (5, doy - cum leap 5 + 1)
+  else if doy < cum leap 7 then (6, doy - cum leap 6 + 1)
+  else if doy < cum leap 8 then (7, doy - cum leap 7 + 1)
+  else if doy < cum leap 9 then (8, doy - cum leap 8 + 1)
+  else if doy < cum leap 10 then (9, doy - cum leap 9 + 1)
+  else if doy < cum leap 11 then (10, doy - cum leap 10 + 1)
+  else if doy < cum leap 12 then (11, doy - cum leap 11 + 1)
+  else (12, doy - cum leap 12 + 1)
+
+/-- inverse of `toDays` (Python's `_ord2ymd`): 400-, 100-, 4- and 1-year cycles -/
+def ofDays (n : Int) : Int × Nat × Nat :=
+  let n400 : Int := n / 146097
+  let r : Int := n % 146097
+  let n100 : Int := min (r / 36524) 3
+  let r2 : Int := r - n100 * 36524
+  let n4 : Int := r2 / 1461
+  let r3 : Int := r2 % 1461
+  let n1 : Int := min (r3 / 365) 3
+  let r4 : Int := r3 - n1 * 365
+  let y : Int := 400 * n400 + 100 * n100 + 4 * n4 + n1 + 1
+  let md := monthDay (isLeap y) r4.toNat
+  (y, md.1, md.2)
+
+/-- days from 0001-01-01 to 1970-01-01 -/
+def unixDay : Int := 719162
 
 def gToSec (f : Fields) : Int :=
-  daysFromCivil f.year f.month f.day * 86400 + (f.hour : Int) * 3600 + (f.minute : Int) * 60 + (f.second : Int)
+  (toDays f.year f.month f.day - unixDay) * 86400 + (f.hour : Int) * 3600 + (f.minute : Int) * 60 + (f.second : Int)
 
 def gOfSec (t : Int) : Fields :=
-  let days : Int := t / 86400
+  let days : Int := t / 86400 + unixDay
   let r : Int := t % 86400
-  let (y, m, d) := civilFromDays days
-  ⟨y, m, d, (r / 3600).toNat, (r % 3600 / 60).toNat, (r % 60).toNat⟩
+  let ymd := ofDays days
+  ⟨ymd.1, ymd.2.1, ymd.2.2, (r / 3600).toNat, (r % 3600 / 60).toNat, (r % 60).toNat⟩
 
 /-- proleptic Gregorian calendar, seconds since 1970-01-01T00:00:00 -/
 def gregorian : CalOps := ⟨gValid, gToSec, gOfSec⟩
